@@ -159,7 +159,7 @@ def cross_item(h, model_line):
 
 def crosscheck(c, r):
     stats = decor.new_stats()
-    hs = decor.gen_histories(r, ["hash", "hash", "lhm", "mhm"], 60, 24, stats, lawless_frac=0.05)
+    hs = decor.gen_histories(r, ["hash", "hash", "lhm", "mhm"], 60, 24, stats, lawless_frac=0.05, sparse_frac=0.0)
     text = "\n".join(decor.case_line(h) for h in hs) + "\n"
     model = c.run_model("hash", text)
     items = [x for x in (cross_item(h, ml) for h, ml in zip(hs, model)) if x]
@@ -184,6 +184,15 @@ REGRESSION = [
     ("hash", "m2", "h", ["p:2:1:-1", "p:3:5:-1", "g:2", "p:6:7:-1", "d:3", "g:2", "p:7:9:0"], True),
     ("lhm", "m1", "x", ["p:3:30:-1", "p:1:10:-1", "p:2:20:-1", "p:1:11:-1", "d:3", "p:3:31:0", "d:1", "d:2", "d:3"], True),
     ("mhm", "m1", "x", ["P:1:1.2:-1", "P:2::-1", "P:1:3:-1", "g:1", "g:2", "d:1", "P:1:4:0", "g:1"], True),
+    # sparse observation: size-preserving mutations with no full-state observation in between (a Keys cache
+    # invalidated only by a size change, seeded change C03-1c, is seen only this way)
+    ("set", "-", "x", ["a:1", "a:2", "!d:1", "!a:3", "e:1"], True),
+    ("hash", "m2", "x", ["p:1:10:-1", "p:2:20:-1", "!d:1", "!p:3:30:0", "g:3"], True),
+    ("builtin", "-", "x", ["p:1:10:-1", "p:2:20:-1", "!d:1", "!p:3:30:-1", "g:1"], True),
+    ("lhm", "m1", "x", ["p:1:10:-1", "p:2:20:-1", "!d:1", "!p:3:30:0", "g:2"], True),
+    ("mhm", "m1", "x", ["P:1:1:-1", "P:2:2:-1", "!d:1", "!P:3:3:0", "g:2"], True),
+    ("ltm", "-", "x", ["p:1:10:-1", "p:2:20:-1", "!d:1", "!p:3:30:-1", "g:2"], True),
+    ("mtm", "-", "x", ["P:1:1:-1", "P:2:2:-1", "!d:1", "!P:3:3:-1", "g:2"], True),
 ]
 
 
@@ -232,6 +241,8 @@ def finish(c):
         level="proof",
         rule="case = one history (container, Code family k mod m for m in {1,2,3,7,2^64}, Equals exact or by floor(k/2), <=60 ops "
              "Put/Get/Delete[/PutMany] with a pool-oracle choice per Put) generated from VERIF_SEED, biased to delete-then-reinsert "
+             "(half of the histories are SPARSELY observed: the full-state observers run only after ~1/3 of the ops and never inside "
+             "runs of 2-5 size-preserving mutations, return values are still compared at every op) "
              "(recycling pooled nodes) and to head/middle/tail deletions in chains of length >= 3; after EVERY op the return value, "
              "Len, Keys, Values (sorted; sequence for the linked map), the bucket dump (chain order per code, size counter) and, for "
              "the linked map, the order list walked backwards are compared; non-trivial = the history deletes inside a chain of "
